@@ -57,6 +57,8 @@ def one(args):
         res['checks'] = {}
         for cid in ids:
             rc, out = sh('./run %s quick' % cid, cwd=v, env=env, timeout=1200)
+            os.makedirs('/tmp/pc/logs', exist_ok=True)
+            open('/tmp/pc/logs/%s_%s_%s.log' % (os.path.basename(os.path.dirname(d)), os.path.basename(d), cid), 'w').write(out)
             first = next((l for l in out.splitlines() if l.startswith('VIOLATION') or 'INFRASTRUCTURE' in l), '')
             kinds = [l.strip() for l in out.splitlines() if l.strip().startswith('probe=')][:2]
             res['checks'][cid] = {'exit': rc, 'line': first[:200], 'first': kinds}
